@@ -937,4 +937,48 @@ theorem Kind.getProp_row (k : Kind) (o : Obj) (n : Str) (i : Nat) (h : k.lookup 
     k.getProp o n = k.getAt o i := by
   unfold Kind.getProp; rw [h]
 
+
+theorem filterMap_congr' {α β : Type} (l : List α) (f g : α → Option β) (h : ∀ x ∈ l, f x = g x) :
+    l.filterMap f = l.filterMap g := by
+  induction l with
+  | nil => rfl
+  | cons a r ih =>
+    simp only [List.filterMap_cons]
+    rw [h a (List.mem_cons_self ..), ih (fun x hx => h x (List.mem_cons_of_mem _ hx))]
+
+/-- the record after one row changed its value and every other row kept it -/
+theorem Kind.dump_set (k : Kind) (o o' : Obj) (i : Nat) (g : GetEntry) (x : Val)
+    (hg : k.gets[i]? = some g) (hnd : (k.gets.map (·.name)).Nodup)
+    (hi : k.getAt o' i = some (g.name, x))
+    (hj : ∀ j, j < k.gets.length → j ≠ i → k.getAt o' j = k.getAt o j) :
+    k.dump o' = Record.set (k.dump o) g.name x := by
+  unfold Kind.dump Record.set
+  rw [List.map_filterMap]
+  apply filterMap_congr'
+  intro j hjm
+  have hjl : j < k.gets.length := List.mem_range.mp hjm
+  have hil : i < k.gets.length := by
+    rcases Nat.lt_or_ge i k.gets.length with h | h
+    · exact h
+    · rw [List.getElem?_eq_none h] at hg; cases hg
+  by_cases e : j = i
+  · subst e
+    obtain ⟨y, hy⟩ := Kind.getAt_name k o j g hg
+    rw [hi, hy]
+    simp
+  · have hgj : k.gets[j]? = some k.gets[j] := List.getElem?_eq_getElem hjl
+    obtain ⟨y, hy⟩ := Kind.getAt_name k o j _ hgj
+    rw [hj j hjl e, hy]
+    have hne : k.gets[j].name ≠ g.name := by
+      have hgi : k.gets[i] = g := by
+        have := List.getElem?_eq_getElem hil; rw [this] at hg; exact Option.some.inj hg
+      rw [← hgi]
+      have hp := List.pairwise_iff_getElem.mp hnd
+      rcases Nat.lt_or_gt_of_ne e with hlt | hgt
+      · have := hp j i (by simpa using hjl) (by simpa using hil) hlt
+        simpa using this
+      · have := hp i j (by simpa using hil) (by simpa using hjl) hgt
+        intro h; apply this; simp only [List.getElem_map]; exact h.symm
+    simp [hne]
+
 end Mpt.Layout
